@@ -372,6 +372,8 @@ class Exec:
             return UNIT
         m = re.match(r'^\{closure@.*\}$', s)
         if m: return Closure(s, [])
+        if s in ('std::time::UNIX_EPOCH', 'UNIX_EPOCH', 'SystemTime::UNIX_EPOCH', 'std::time::SystemTime::UNIX_EPOCH'):
+            return Agg([mk_int(0, 'u64'), mk_int(0, 'u32')], 'struct:SystemTime')
         if re.match(r'^[\w:<>{}# ,]+$', s) and self.resolve_fnptr(s): return FnPtr(s)
         return self.const_value(s)
 
@@ -923,7 +925,7 @@ class Exec:
         return None
 
     # ---- calls
-    def call_body(self, f, args, guard, entry='bb0', frame_init=None):
+    def call_body(self, f, args, guard, entry='bb0', frame_init=None, stop_at=None, stops=None):
         """execute crate function f under guard; returns (value, returns-guard)"""
         ctx = self.ctx
         self.depth += 1
@@ -964,6 +966,12 @@ class Exec:
             hs_cur = chain(bb)
             def go(t, gg, ff, bb=bb, its=its, hs_cur=hs_cur):
                 if z3.is_false(gg): return
+                if stop_at and t in stop_at:
+                    # CFG cut: record the state arriving at t over the edge bb -> t and do not continue
+                    ctx.frames[act] = ff
+                    stops.append({'to': t, 'from': bb, 'guard': gg, 'frame': dict(ff), 'act': act})
+                    ctx.drops += 1
+                    return
                 hs_t = chain(t); nits = []
                 for i, h in enumerate(hs_t):
                     if i < len(hs_cur) and hs_cur[i] == h:
